@@ -1,9 +1,9 @@
 #!/bin/bash
 # C09: PathSelector::is_absolute (fclones/src/selector.rs) does not look past an inline flag group,
 # so an absolute --regex pattern starting with (?i) / (?s) ... gets the working directory prepended.
-CHECKOUT=${1:-/tmp/hunt/n4}
-F=/tmp/hunt/n4/target/debug/fclones
-T=$(mktemp -d /tmp/hunt/n4-out/r3XXXXXX) || exit 2
+CHECKOUT=${1:-/repo}
+F=${1:-/repo}/target/debug/fclones
+T=$(mktemp -d /tmp/r3XXXXXX) || exit 2
 trap 'rm -rf "$T"' EXIT
 mkdir -p "$T/Photos" "$T/tmp"
 echo same > "$T/Photos/a"; echo same > "$T/Photos/b"; echo same > "$T/tmp/c"; echo same > "$T/tmp/d"
